@@ -21,6 +21,7 @@ func c17(r *core.Report) {
 	c17Order(r)
 	c17Content(r)
 	c17Pure(r)
+	c17Servers(r)
 }
 
 // c17Counterparts: which source struct (other specification version) a target struct literal is a
@@ -1134,4 +1135,55 @@ func aliasesSource(ff *core.FuncFacts, info *types.Info, o types.Object, src map
 		}
 	}
 	return true
+}
+
+// c17Servers: host, base path and schemes become server URLs and come back. ToV3 builds each URL
+// from its components (url.URL{Scheme, Host, Path}); the way back must read the same components of
+// the parsed URL -- Host carries the port, Hostname() does not.
+func c17Servers(r *core.Report) {
+	p := r.Prog
+	info := p.Pkg("openapi2conv").TypesInfo
+	r.RunRule("C17.servers", "host and base path come back from the components they were put into: every assignment to the Host / BasePath field of an openapi2.T in package openapi2conv takes the Host / Path field of a parsed url.URL (not Hostname(), which drops the port, nor a re-assembled string), mirroring the url.URL{Scheme, Host, Path} literal ToV3 builds the server URLs from", 2, func() {
+		want := map[string]string{"Host": "Host", "BasePath": "Path"}
+		perField := map[string]int{}
+		for _, d := range p.AllDecls("openapi2conv") {
+			if d.Body == nil {
+				continue
+			}
+			ast.Inspect(d.Body, func(n ast.Node) bool {
+				as, ok := n.(*ast.AssignStmt)
+				if !ok {
+					return true
+				}
+				for i, l := range as.Lhs {
+					sel, ok := ast.Unparen(l).(*ast.SelectorExpr)
+					if !ok || i >= len(as.Rhs) {
+						continue
+					}
+					w, ok := want[sel.Sel.Name]
+					if !ok {
+						continue
+					}
+					if nn := core.NamedOf(info.TypeOf(sel.X)); nn == nil || nn.Obj().Name() != "T" || nn.Obj().Pkg().Name() != "openapi2" {
+						continue
+					}
+					perField[sel.Sel.Name]++
+					key := fmt.Sprintf("servers:%s.%s#%d", core.FuncName(d), sel.Sel.Name, perField[sel.Sel.Name])
+					rhs := ast.Unparen(as.Rhs[i])
+					good := false
+					if rs, ok := rhs.(*ast.SelectorExpr); ok && rs.Sel.Name == w {
+						if nn := core.NamedOf(info.TypeOf(rs.X)); nn != nil && nn.Obj().Pkg() != nil && nn.Obj().Pkg().Path() == "net/url" {
+							good = true
+						}
+					}
+					if good {
+						r.OK(key, p.Pos(as.Pos()), "taken from url.URL."+w)
+					} else {
+						r.Bad(key, p.Pos(as.Pos()), fmt.Sprintf("%s of the OpenAPI 2 document is set from %s instead of the %s field of the parsed server URL: what ToV3 put into the URL does not come back (Hostname() drops an explicit port: `admin.example.com:8443` returns as `admin.example.com`)", sel.Sel.Name, core.ExprStr(rhs), w))
+					}
+				}
+				return true
+			})
+		}
+	})
 }
